@@ -225,7 +225,7 @@ func init() {
 
 	// S2: connection loss and recovery, on-demand: the next call redials.
 	vexp.Register(&vexp.Scenario{
-		Name: "c19.S2.ondemand-recovers", Prop: "C19", MaxSteps: 100000,
+		Name: "c19.S2.ondemand-recovers", Prop: "C19", Also: []string{"C09"}, MaxSteps: 100000,
 		Bounds: func(thorough bool) vexp.Bounds {
 			if thorough {
 				return vexp.Bounds{P: 2, F: 1, E: 1}
@@ -295,7 +295,7 @@ func init() {
 
 	// S3: auto-connect client: reconnects by itself with a bounded, non-decreasing back-off.
 	vexp.Register(&vexp.Scenario{
-		Name: "c19.S3.autoconnect-backoff", Prop: "C19", MaxSteps: 200000,
+		Name: "c19.S3.autoconnect-backoff", Prop: "C19", Also: []string{"C09"}, MaxSteps: 200000,
 		Bounds: func(thorough bool) vexp.Bounds {
 			if thorough {
 				return vexp.Bounds{P: 2, F: 1, E: 1}
